@@ -125,7 +125,8 @@ Fixpoint kw_last (k : akey) (kw : kwargs) : option aval :=
 
 (** the most recent of the keyword arguments that write attribute [k]:
     [k] itself, [exc_table] for [exc_db], [type_name] for [_explicit_type_name],
-    [protocol] and [p] for [prot] *)
+    [protocol] and [p] for [prot], [primary_key] and [pk] for [primary_key] and
+    the primary_key entry of the column keywords *)
 Fixpoint requested (k : akey) (kw : kwargs) : option aval :=
   match kw with
   | [] => None
@@ -136,6 +137,8 @@ Fixpoint requested (k : akey) (kw : kwargs) : option aval :=
       if (k' <? 0) || (k' =? K_EXPLICIT_TN) then None
       else if k' =? K_TYPE_NAME then (if k =? K_EXPLICIT_TN then Some (VBool true) else None)
       else if (k' =? K_PROTOCOL) || (k' =? K_P) then (if k =? K_PROT then Some v else None)
+      else if (k' =? K_PRIMARY_KEY) || (k' =? K_PK)
+      then (if (k =? K_PRIMARY_KEY) || (k =? K_COL_PK) then Some v else None)
       else if k' =? K_EXC_TABLE then (if (k =? K_EXC_TABLE) || (k =? K_EXC_DB) then Some v else None)
       else if (k' =? K_MAX_OCCURS) && is_unbounded v then (if k =? K_MAX_OCCURS then Some VInf else None)
       else if k =? k' then Some v else None
